@@ -82,15 +82,19 @@ def compare(m, M, exact=True, tol=0.0, want_ori=True, same_class=True):
                 out.append((what + '-set', f'{k}: {sorted(sa.tolist())} -> {sorted(sb.tolist())}'))
             elif what == 'boundaries' and want_ori:
                 # orientation = which cell is on the tagged side (the flag indexes the rows of f2t; equal tables: equal flags)
-                da = {f: int(m.f2t[o, f]) for f, o in tag_ori(a[k]).items()}
-                db = {f: int(M.f2t[o, f]) for f, o in tag_ori(b[k]).items()}
+                # (multisets of (facet, cell on the tagged side): a facet may be listed from both sides)
+                def sides(mesh, tag):
+                    o = getattr(tag, 'ori', None)
+                    o = np.zeros(len(tag), dtype=int) if o is None else np.asarray(o).astype(int)
+                    return sorted((int(f), int(mesh.f2t[int(oo), int(f)])) for f, oo in zip(np.asarray(tag), o))
+                da, db = sides(m, a[k]), sides(M, b[k])
                 if getattr(a[k], 'ori', None) is None and getattr(b[k], 'ori', None) is None:
                     continue            # unoriented before and after: no side to compare
                 # (an unoriented tag that comes back with flags must still designate the side f2t[0] it had implicitly)
                 if da != db:
-                    bad = sorted(f for f in da if da[f] != db[f])
-                    out.append(('orientation', f'{k}: {len(bad)} of {len(da)} facets, e.g. facet {bad[0]}: tagged side '
-                                               f'cell {da[bad[0]]} -> cell {db[bad[0]]}'))
+                    bad = [x for x in da if x not in db] or db
+                    out.append(('orientation', f'{k}: (facet, cell on the tagged side) pairs differ, e.g. {bad[0]} of '
+                                               f'{da[:6]} -> {db[:6]}'))
     return out
 
 
@@ -471,9 +475,60 @@ def empty_tags_then_restrict(ctx, rng):
             ctx.count(('empty-tags', fmt, name), nontrivial=True)
 
 
+def two_sided_tags(ctx, rng, fmts):
+    """deterministic witnesses: an oriented tag that lists facets from BOTH sides ([f, f] with flags [0, 1]), hand-made and
+    as produced by remove_duplicate_nodes on two stacked meshes, through every format"""
+    import skfem
+    from skfem.generic_utils import OrientedBoundary
+    for name in FIRST:
+        m = rand_mesh1(name, rng, integer=True, holes=False, size=[2, 3] if name in ('MeshTri1', 'MeshQuad1') else [2, 2, 2])
+        itf = np.nonzero(m.f2t[1] != -1)[0][:3]
+        hand = m.with_boundaries({'both': OrientedBoundary(np.concatenate([itf, itf]).astype(np.int32),
+                                                           np.concatenate([np.zeros(len(itf), int), np.ones(len(itf), int)])),
+                                  'one': OrientedBoundary(itf.astype(np.int32), np.ones(len(itf), int))})
+        # two copies side by side, NOT merged; the seam is tagged on both copies; the merge makes the tag two-sided
+        ax = 0
+        dv = [0.0] * m.p.shape[0]
+        dv[ax] = float(m.p[ax].max() - m.p[ax].min())
+        o = m.translated(dv)
+        st = type(m)(np.hstack((m.p, o.p)), np.hstack((m.t, o.t + m.p.shape[1])))
+        xs = float(m.p[ax].max())
+        seam = np.nonzero(np.all(st.p[ax, st.facets] == xs, axis=0))[0].astype(np.int32)
+        st = st.with_boundaries({'seam': OrientedBoundary(seam, np.zeros(len(seam), int))})
+        merged = st.remove_duplicate_nodes()
+        g = merged.boundaries['seam']
+        if len(g) != len(seam) or len(set(np.asarray(g).tolist())) * 2 != len(g):
+            ctx.fail(f'two-sided-tag:remove_duplicate_nodes:{name}', 'the seam tagged on both copies does not become a two-sided tag',
+                     {'mesh': mesh_json(st), 'got': np.asarray(g).tolist()})
+            continue
+        for mt in (hand, merged):
+            codec_ok = codec_direct_multiset(ctx, mt)
+            for fmt in fmts:
+                one_roundtrip(ctx, mt, fmt, rng, codec_ok)
+                ctx.count(('two-sided', fmt, mesh_json(mt)), nontrivial=True)
+
+
+def codec_direct_multiset(ctx, m):
+    """decode(encode) on tags that may list a facet twice: compared as multisets of (facet, tagged-side cell)"""
+    bnd, _ = m._decode_cell_data(m._encode_cell_data())
+    ok = True
+    for k, b in m.boundaries.items():
+        def sides(tag):
+            o = getattr(tag, 'ori', None)
+            o = np.zeros(len(tag), dtype=int) if o is None else np.asarray(o).astype(int)
+            return sorted((int(f), int(m.f2t[int(oo), int(f)])) for f, oo in zip(np.asarray(tag), o))
+        if k not in bnd or sides(bnd[k]) != sides(b):
+            ok = False
+            ctx.fail('two-sided-tag:_decode_cell_data', 'Mesh._decode_cell_data(Mesh._encode_cell_data()) does not return a tag that '
+                     'lists facets from both sides', {'mesh': mesh_json(m), 'tag': k, 'want': sides(b),
+                                                      'got': None if k not in bnd else sides(bnd[k])})
+    return ok
+
+
 def oracle(ctx):
     rng = np_seed(ctx, 71)
     empty_tags_then_restrict(ctx, rng)
+    two_sided_tags(ctx, rng, ['meshio', 'gmsh22', 'gmsh41', 'vtk', 'vtu', 'npz', 'dict', 'json', 'vtu-ascii'])
     fmts = ['meshio', 'gmsh22', 'gmsh41', 'vtk', 'vtu', 'npz', 'dict', 'json', 'vtu-ascii']
     if not ctx.quick():
         fmts.append('vtk-ascii')
